@@ -70,6 +70,21 @@ TIES = {
                       modules=["GenC.Container", "TieC.Properties"],
                       what="_pad_array, Provenance.__setitem__ / insert / __delitem__ with an integer index (template translation, harness/translate_cont.py -> lean/GenC/Container.lean)",
                       reg=[("C19", ["DsProofs.TieC.TIEC_setitem", "DsProofs.TieC.TIEC_insert", "DsProofs.TieC.TIEC_delitem"])]),
+    "addops": dict(translator="translate_addops", targets=["GenD", "TieD"], audit="AuditTieD.lean", root="TieD", driver=None,
+                   modules=["GenD.Ops", "TieD.Properties", "TieD.Reach"],
+                   what="ADD.restrict, ADD.modelcount, ShapleyOracle.query (harness/translate_addops.py -> lean/GenD/Ops.lean)",
+                   reg=[("C10", ["DsProofs.TieD.TIED_restrict", "DsProofs.TieD.TIED_modelcount", "DsProofs.TieD.TIED_restrict_reach", "DsProofs.TieD.TIED_modelcount_reach",
+                                 "DsProofs.TieD.reach_shape"]),
+                        ("C09", ["DsProofs.TieD.TIED_query", "DsProofs.TieD.TIED_restrict_reach", "DsProofs.TieD.TIED_modelcount_reach"]),
+                        ("C02", ["DsProofs.TieD.TIED_query"])]),
+    "nbr": dict(translator="translate_nbr", targets=["GenN", "TieN"], audit="AuditTieN.lean", root="TieN", driver=None,
+                modules=["GenN.Neighbor", "TieN.Properties"],
+                what="compute_shapley_add, get_unit_labels_and_distances, compute_shapley_1nn_mapfork (harness/translate_nbr.py -> lean/GenN/Neighbor.lean)",
+                reg=[("C02", ["DsProofs.TieN.TIEN_add_sums", "DsProofs.TieN.TIEN_add_model", "DsProofs.TieN.TIEN_C02"]),
+                     ("C01", ["DsProofs.TieN.TIEN_reduce", "DsProofs.TieN.TIEN_reduce_simple", "DsProofs.TieN.TIEN_mapfork"]),
+                     ("C12", ["DsProofs.TieN.TIEN_reduce"]),
+                     ("C06", ["DsProofs.TieN.TIEN_add_sums"]),
+                     ("C08", ["DsProofs.TieN.TIEN_add_sums"])]),
     "joint": dict(translator="translate_joint", targets=["GenJ", "TieJ"], audit="AuditTieJ.lean", root="TieJ", driver=None,
                   modules=["GenJ.Joint", "TieJ.Properties"],
                   what="JointUtility.null_score / mean_score / elementwise_score / elementwise_null_score / __call__ (harness/translate_joint.py -> lean/GenJ/Joint.lean)",
